@@ -104,11 +104,12 @@ fn drive(src: &str, bps: &[i64], cmds: &[String], globals: &starlark::environmen
             let _ = done_tx.send(j);
         });
         let mut stops: Vec<J> = Vec::new();
+        let mut evals: Vec<J> = Vec::new();
         let mut ci = 0usize;
         let start = std::time::Instant::now();
         loop {
             if let Ok(j) = done_rx.try_recv() {
-                return json!({"status": "ok", "stops": stops, "result": j});
+                return json!({"status": "ok", "stops": stops, "result": j, "evals": evals});
             }
             if start.elapsed() > Duration::from_secs(20) {
                 // unblock the evaluation thread as well as we can, then give up on this case
@@ -138,8 +139,24 @@ fn drive(src: &str, bps: &[i64], cmds: &[String], globals: &starlark::environmen
                         .map(|s| s.stack_frames.len())
                         .unwrap_or(0);
                     stops.push(json!({"line": line, "vars": vars, "frames": depth}));
-                    let c = cmds.get(ci).map(|s| s.as_str()).unwrap_or("continue");
+                    // evaluate / watch requests leave the session paused: serve them, then the next command
+                    let mut c = cmds.get(ci).map(|s| s.as_str()).unwrap_or("continue");
                     ci += 1;
+                    while c.starts_with("eval_") {
+                        let (expr, want_ok) = match c {
+                            "eval_ok" => ("1 + 1", true),
+                            "eval_fail" => ("1 // 0", false),
+                            _ => ("1 +", false),
+                        };
+                        let r = adapter.evaluate(expr);
+                        let ok = match &r {
+                            Ok(info) => want_ok && info.result == "2",
+                            Err(_) => !want_ok,
+                        };
+                        evals.push(json!({"cmd": c, "as_expected": ok}));
+                        c = cmds.get(ci).map(|s| s.as_str()).unwrap_or("continue");
+                        ci += 1;
+                    }
                     let r = match c {
                         "into" => adapter.step(StepKind::Into),
                         "over" => adapter.step(StepKind::Over),
